@@ -851,6 +851,7 @@ func checkC15(c *Check) {
 	importRules(c, "C17", func(s *Check) { s.Rule("R4", "key chains", 0); c17Chains(s) }, map[string]bool{"R4": true}, "R14")
 	c06RejectWins(c, "R15")
 	c14FullMatchAnchorsWhole(c, "R16")
+	c15NormalizerTable(c, "R17")
 	// which source block – and so which checks – a sender gets is decided on the normalised address, domain rule
 	// included: a spelling that misses `source example.org { check { authorize_sender } }` (trailing dot, case) falls
 	// through to default_source and is never asked for authorization
